@@ -137,6 +137,34 @@ func (et ExposureTime) String() string {
 	return string(buf)
 }
 
+// UnmarshalText implements the TextUnmarshaler interface: it reads what
+// MarshalText writes ("1/250" below one second, "2.50" from one second up,
+// nothing for zero), so that a value that has been written - on its own or
+// inside a struct through encoding/json - can be read back.
+func (et *ExposureTime) UnmarshalText(text []byte) error {
+	if len(text) == 0 {
+		*et = 0
+		return nil
+	}
+	if len(text) > 2 && text[0] == '1' && text[1] == '/' {
+		d, err := strconv.ParseUint(string(text[2:]), 10, 64)
+		if err != nil {
+			return err
+		}
+		if d == 0 {
+			return strconv.ErrRange
+		}
+		*et = ExposureTime(1 / float64(d))
+		return nil
+	}
+	f, err := strconv.ParseFloat(string(text), 32)
+	if err != nil {
+		return err
+	}
+	*et = ExposureTime(f)
+	return nil
+}
+
 // ExposureBias is the Exposure Bias of an image expressed as
 // a positive or negative fraction.
 // Bit1 = Sign
